@@ -102,6 +102,25 @@ Theorem later_items_undisturbed : forall st h its rs st',
 Proof. exact process_without_failed_c. Qed.
 Print Assumptions later_items_undisturbed.
 
+(* The same for items that only read (Get, GetAttributes, Query, Locate, the cryptographic
+   operations): the request reduced to its successful WRITING items gets the same answers
+   for them and ends in the same store - a read leaves nothing a later commit could publish. *)
+Theorem only_successful_writes_matter : forall st h its rs st',
+    process st h its = (inr rs, st') ->
+    process st h (kept body keep_writing its rs) = (inr (kept_results body keep_writing its rs), st').
+Proof. exact process_writing_only_c. Qed.
+Print Assumptions only_successful_writes_matter.
+
+Example only_successful_writes_matter_example :
+  exists rs st', process demo_store demo_header
+     [Build_item 10 (Some [1]) (BGet (Some 1)); Build_item 18 (Some [2]) (BActivate (Some 1));
+      Build_item 1 (Some [3]) (BCreate true false true true true true [] [] None); Build_item 10 (Some [4]) (BGet None)] = (inr rs, st') /\
+     map r_ok rs = [true; false; true; true] /\
+     map (@it_op body) (kept body keep_writing
+        [Build_item 10 (Some [1]) (BGet (Some 1)); Build_item 18 (Some [2]) (BActivate (Some 1));
+         Build_item 1 (Some [3]) (BCreate true false true true true true [] [] None); Build_item 10 (Some [4]) (BGet None)] rs) = [1].
+Proof. eexists. eexists. vm_compute. repeat split. Qed.
+
 (* "Every item that was executed has its result reported - no operation takes effect
    without the client being told": (1) a request-level error leaves the store untouched,
    on every path that raises one; (2) otherwise the final store is the effect of exactly
